@@ -901,6 +901,19 @@ fn eval(a: &[String]) -> String {
       }
       out
     }
+    "direction_element" => {
+      use tyme4rs::tyme::culture::Direction;
+      format!("{}", Direction::from_index(v[0] as isize).get_element().get_index())
+    }
+    "name_table" => {
+      // v[0]: 0 Land::get_direction, 1 Zone::get_beast, 2 Twenty::get_sixty; v[1]: index
+      use tyme4rs::tyme::culture::{Land, Zone, Twenty};
+      match v[0] {
+        0 => format!("{}", Land::from_index(v[1] as isize).get_direction().get_index()),
+        1 => format!("{}", Zone::from_index(v[1] as isize).get_beast().get_index()),
+        _ => format!("{}", Twenty::from_index(v[1] as isize).get_sixty().get_index()),
+      }
+    }
     "fortune_scan" => {
       // decade / yearly fortunes of births on every 3rd day of 2000-2001 (both genders): ages, years and pillars against the rule
       use tyme4rs::tyme::eightchar::ChildLimit;
